@@ -209,6 +209,7 @@ func run(c *core.Ctx) int {
 	c.Assume("WASI proc_exit cannot be instrumented: which module it acted on is judged by the closed-ness probes of every instance")
 	c.Assume("a probe that does not return within 2x20s is a hang only if the same probe on a fresh runtime of the same engine returned within 20s (control); otherwise inconclusive; an operation that does not return within 100s is inconclusive")
 	c.Assume("half of the histories run on runtimes built WithCloseOnContextDone(true); every operation's calls get a fresh context that becomes done (cancel / 30ms deadline) only after the top-level call returned, which must have no effect; if a deadline is found passed right after the call returned the rest of the history is inconclusive")
+	c.Assume("an exit is a bare *sys.ExitError (type assertion); a host panic whose error only wraps one (fmt.Errorf %w, Unwrap type, errors.Join) or claims to be one (Is/As methods) is a host panic: the returned error must not be a bare ExitError and must reach the panic value through errors.As; a bare sys.NewExitError panicked by the host without Close is returned bare and leaves the module open (pinned behaviour)")
 	c.Assume("stack overflow is recognised as errors.Is(err, ErrRuntimeStackOverflow) (the compiler returns it without the 'wasm error:' prefix)")
 	return c.Finish(evals, int64(c.DistinctN("kind_depth_position")),
 		"PRNG histories (5-40 operations over 1-3 instances, B<-A linked by a function import, C independent) run on interpreter and compiler against a Go model; every operation's outcome (result or error class), every error observed by re-entrant host functions at nesting depth 1-6, the api.Module handed to every host function (by name and memory marker, for direct and call_indirect calls from own and from imported functions), and the state of every instance after every failing operation (counter, memory, table, closed?, host view, and a value-neutral run of every atomic instruction on the instance's memory and on a shared memory from the same api.Function, a fresh one and the other instance sharing it) are compared with the model, and the two engines' transcripts with each other; evaluations = histories decided; distinct = distinct (failure kind, nesting depth, position in history) triples injected")
@@ -261,7 +262,11 @@ func runCase(hc histCase, verbose bool) *histResult {
 	hr := &histResult{Ops: map[string]int{}, Fails: map[string]int{}, Outcomes: map[string]int{}, Forms: map[string]int{}, Ctx: map[string]int{}, ET: hc.ET}
 	for i, o := range ops {
 		hr.Ops[o.Kind]++
-		hr.Outcomes[normClass(o.WantClass)]++
+		if oc := normClass(o.WantClass); strings.HasPrefix(oc, "panic:wrap") {
+			hr.Outcomes["panic:error-wrapping-a-nested-failure-or-exit"]++
+		} else {
+			hr.Outcomes[oc]++
+		}
 		for _, f := range o.Fails {
 			hr.Fails[fmt.Sprintf("%s|%d", f.Kind, f.Depth)]++
 			hr.Triples = append(hr.Triples, fmt.Sprintf("%s|%d|%d", f.Kind, f.Depth, i))
